@@ -23,6 +23,7 @@
     only when the creation of the root itself failed (there is nothing to kill; Start returns start-failed). *)
 From Coq Require Import List NArith Bool.
 From Vivid Require Import System.Lifecycle System.LifecycleProofs.
+From Vivid Require System.LockOrder System.LockOrderProofs.
 Import ListNotations.
 Local Open Scope N_scope.
 
@@ -226,6 +227,81 @@ Theorem C07_skip_only_if_root_failed c s :
   hasCtx s = false /\ kills s = 0 /\ exists i p, nth_error (thr s) i = Some p /\ failing p = true.
 Proof. exact (skip_only_if_root_failed c s). Qed.
 
+(** ============================ (7) lock order: statusLock before actorOfLock ============================
+
+    The lock view of the same code (System/LockOrder.v; proofs in System/LockOrderProofs.v).  system.go has a
+    second mutex, actorOfLock (System.ActorOf).  The start-up chain that Start runs UNDER statusLock spawns
+    "@metrics" / "@remoting" / "@cluster" ... through System.ActorOf, i.e. takes actorOfLock while holding
+    statusLock; stop takes statusLock alone (and, on a clustered system, actorOfLock later - in Leave() -
+    holding nothing); any goroutine may call System.ActorOf.  A thread is a straight-line program of
+    Acq / Rel / Wait (for the environment) / Work operations - one program per branch of the code
+    ([LockOrder.shape] / [LockOrder.prog_of]; the chain is refined into its k ActorOf calls, k arbitrary) - and
+    the machine interleaves ANY population of them.  [LockOrder.reachable progs s]: s is the state after SOME
+    interleaving of the threads running [progs].  Locks are numbered by rank: statusLock 0 < actorOfLock 1.
+    The lock-step harness checks, per thread of every controlled run (metrics-enabled systems included), that
+    the sequence of lock operations it really performed is one of these programs (case kind 3). *)
+
+(** the lock-hierarchy theorem, for EVERY population of programs that respect the hierarchy ([ordered [] p]: p
+    acquires only locks ranked strictly above everything it holds, releases only what it holds, never waits for
+    the environment while holding a lock, ends holding nothing) and every interleaving: whenever some thread
+    wants to run (is neither finished nor waiting for the environment), some thread can execute its next
+    operation - no deadlock on locks *)
+Theorem C07_lock_hierarchy_sound (progs : list (list LockOrder.op)) (s : list LockOrder.thread) :
+  forallb (LockOrder.ordered []) progs = true -> LockOrder.reachable progs s ->
+  (exists i t, nth_error s i = Some t /\ LockOrder.wants_cpu t = true) ->
+  exists j s', LockOrder.step (LockOrder.EStep j) s = Some s'.
+Proof. exact (LockOrderProofs.lo_progress progs s). Qed.
+
+(** every program of system.go respects the hierarchy: first / repeated Start with a chain of k ActorOf calls
+    (k arbitrary) succeeding or failing after k calls, effective / repeated stop on plain and clustered systems,
+    the guard goroutine, external System.ActorOf callers, cancellation *)
+Theorem C07_lock_programs_ordered (sh : LockOrder.shape) :
+  LockOrder.ordered [] (LockOrder.prog_of sh) = true.
+Proof. exact (LockOrderProofs.prog_ordered sh). Qed.
+
+(** hence, for all populations of Start / Stop / guard / ActorOf / cancel threads and all interleavings:
+    deadlock freedom ... *)
+Theorem C07_lock_no_deadlock (shapes : list LockOrder.shape) (s : list LockOrder.thread) :
+  LockOrder.reachable (map LockOrder.prog_of shapes) s ->
+  (exists i t, nth_error s i = Some t /\ LockOrder.wants_cpu t = true) ->
+  exists j s', LockOrder.step (LockOrder.EStep j) s = Some s'.
+Proof. exact (LockOrderProofs.c07_lock_progress shapes s). Qed.
+
+(** ... mutual exclusion of both locks ... *)
+Theorem C07_lock_mutex (shapes : list LockOrder.shape) (s : list LockOrder.thread) i j ti tj l :
+  LockOrder.reachable (map LockOrder.prog_of shapes) s ->
+  nth_error s i = Some ti -> nth_error s j = Some tj ->
+  LockOrder.holds ti l = true -> LockOrder.holds tj l = true -> i = j.
+Proof. exact (LockOrderProofs.c07_lock_mutex shapes s i j ti tj l). Qed.
+
+(** ... lock-order acyclicity: a thread standing in front of a lock holds only locks of strictly lower rank
+    (along "waits for the holder of" the rank strictly increases: no cycle) ... *)
+Theorem C07_lock_order_acyclic (shapes : list LockOrder.shape) (s : list LockOrder.thread) i t l' r l :
+  LockOrder.reachable (map LockOrder.prog_of shapes) s ->
+  nth_error s i = Some t -> LockOrder.todo t = LockOrder.Acq l' :: r -> LockOrder.holds t l = true -> l < l'.
+Proof. exact (LockOrderProofs.c07_lock_acyclic shapes s i t l' r l). Qed.
+
+(** ... in particular whoever waits for statusLock (every stop, every Start) holds nothing, not actorOfLock either *)
+Theorem C07_status_waiter_holds_nothing (shapes : list LockOrder.shape) (s : list LockOrder.thread) i t r :
+  LockOrder.reachable (map LockOrder.prog_of shapes) s ->
+  nth_error s i = Some t -> LockOrder.todo t = LockOrder.Acq LockOrder.statusLock :: r -> LockOrder.held t = [].
+Proof. exact (LockOrderProofs.c07_status_waiter_holds_nothing shapes s i t r). Qed.
+
+(** sharpness: the seeded inversion (stop takes actorOfLock BEFORE statusLock) is rejected by [ordered], and
+    against a Start whose chain spawns one system actor it reaches a state in which both threads want to run and
+    nothing - no thread step, no environment event - is possible any more: Start holds statusLock and stands in
+    front of actorOfLock, the stop holds actorOfLock and stands in front of statusLock *)
+Theorem C07_lock_inversion_deadlocks :
+  LockOrder.ordered [] LockOrder.stop_mutant = false /\
+  LockOrder.reachable LockOrderProofs.mutant_progs LockOrderProofs.mutant_dead /\
+  (forall t, In t LockOrderProofs.mutant_dead -> LockOrder.wants_cpu t = true) /\
+  (forall e, LockOrder.step e LockOrderProofs.mutant_dead = None) /\
+  (exists t0 t1 r0 r1,
+      nth_error LockOrderProofs.mutant_dead 0 = Some t0 /\ nth_error LockOrderProofs.mutant_dead 1 = Some t1 /\
+      LockOrder.held t0 = [LockOrder.statusLock] /\ LockOrder.todo t0 = LockOrder.Acq LockOrder.actorOfLock :: r0 /\
+      LockOrder.held t1 = [LockOrder.actorOfLock] /\ LockOrder.todo t1 = LockOrder.Acq LockOrder.statusLock :: r1).
+Proof. exact (conj LockOrderProofs.mutant_not_ordered LockOrderProofs.mutant_deadlock). Qed.
+
 (** ============================ non-vacuity ============================ *)
 
 Definition ex_cfg : cfg := {| cfg_cluster := false; cfg_timeout := 5 |}.
@@ -321,6 +397,28 @@ Example C07_ex_admissible :
   admissible pc [CStart; CStop false; CStop false; CStart] [0; 2; 0; 1] = true.
 Proof. vm_compute. repeat split. Qed.
 
+(** lock view: Start (metrics: one chain ActorOf) holds statusLock and stands in front of actorOfLock, which an
+    external System.ActorOf caller holds, a Stop stands in front of statusLock - the hypotheses of
+    C07_lock_no_deadlock / C07_lock_order_acyclic hold in a reachable state with two blocked threads; the
+    ActorOf caller can go on *)
+Example C07_ex_lock_order :
+  LockOrder.reachable (map LockOrder.prog_of LockOrderProofs.ex_shapes) LockOrderProofs.ex_state /\
+  (exists t0 r0, nth_error LockOrderProofs.ex_state 0 = Some t0 /\ LockOrder.held t0 = [LockOrder.statusLock] /\
+                 LockOrder.todo t0 = LockOrder.Acq LockOrder.actorOfLock :: r0) /\
+  LockOrder.step (LockOrder.EStep 0) LockOrderProofs.ex_state = None /\
+  LockOrder.step (LockOrder.EStep 2) LockOrderProofs.ex_state = None /\
+  exists s', LockOrder.step (LockOrder.EStep 1) LockOrderProofs.ex_state = Some s'.
+Proof. exact LockOrderProofs.ex_state_facts. Qed.
+
+(** what the lock-step harness observes on a metrics-enabled system conforms; the inverted stop does not *)
+Example C07_ex_lock_conforms :
+  LockOrder.conforms 0 true [LockOrder.Acq 0; LockOrder.Acq 1; LockOrder.Rel 1; LockOrder.Rel 0] = true /\
+  LockOrder.conforms 1 true [LockOrder.Acq 0; LockOrder.Rel 0] = true /\
+  LockOrder.conforms 0 false [LockOrder.Acq 0] = true /\
+  LockOrder.conforms 1 true [LockOrder.Acq 1; LockOrder.Acq 0; LockOrder.Rel 0; LockOrder.Rel 1] = false /\
+  LockOrder.ordered_prefix [] [LockOrder.Acq 1; LockOrder.Acq 0] = false.
+Proof. vm_compute. repeat split. Qed.
+
 Print Assumptions C07_mutex.
 Print Assumptions C07_lock_released.
 Print Assumptions C07_no_deadlock.
@@ -346,3 +444,10 @@ Print Assumptions C07_goroutines.
 Print Assumptions C07_start_holds_lock.
 Print Assumptions C07_root_nil_only_in_start_or_failed.
 Print Assumptions C07_skip_only_if_root_failed.
+Print Assumptions C07_lock_hierarchy_sound.
+Print Assumptions C07_lock_programs_ordered.
+Print Assumptions C07_lock_no_deadlock.
+Print Assumptions C07_lock_mutex.
+Print Assumptions C07_lock_order_acyclic.
+Print Assumptions C07_status_waiter_holds_nothing.
+Print Assumptions C07_lock_inversion_deadlocks.
